@@ -34,7 +34,7 @@ def sortNat (l : List Nat) : List Nat := l.foldr insertSorted []
 
 def idsJ (l : List Nat) : Json := Json.arr (l.map natJ).toArray
 
-def unresolved (s : RunLoop.St) : List Nat := sortNat ((s.inflight ++ s.pending).map (·.id))
+def unresolved (s : RunLoop.St) : List Nat := sortNat (s.unresolved.map (·.id))
 
 /-- the harness engine after the hand-overs in `rounds` -/
 def envAfter (base : Env) (rounds : List Round) (inp : Input) : Env :=
